@@ -156,11 +156,13 @@ CLAIMED.update({
 
 CLAIMED.update({
     "C07": (
-        "role-swap symmetry on value-numbered kernel terms under assumed rank relations (3-point order domain) in polynomial normal form",
+        "role-swap symmetry on value-numbered kernel terms under assumed rank relations (3-point order domain) in polynomial normal form; "
+        "abstract evaluation of the Plackett-Luce helpers on every weak ordering of 2 and 3 ranks (R7.7f); value-equality tag (R7.10)",
         "other",
         "For the four pairwise models the omega increment of team i against q divided by team i's variance is the negation of the mirrored, role-exchanged increment (symmetric scale, "
         "complementary score table/expectation, Gaussian correction at the mirrored argument); the callback never reaches omega; for Plackett-Luce the normaliser is filled over exactly the set "
-        "it is applied to, with the same exponential and one tie divisor per normaliser. Necessary conditions of the zero-sum identity; the floating-point residual and the symmetry of "
+        "it is applied to, with the same exponential and one tie divisor per normaliser, and _sum_q / _a agree with their definitions on every weak ordering of 2 and 3 ranks; teams are told apart "
+        "by position, never by value equality. Necessary conditions of the zero-sum identity; the floating-point residual and the symmetry of "
         "_ladder_pairs' neighbour relation are not decided.",
         "Trusted: osv/ai, osv/poly.py; v/w/vt/wt/phi_major as uninterpreted functions. Accumulator roles are found by data flow.",
         "DESIGN.md §5 C07",
